@@ -33,7 +33,7 @@ def esc_text(s, rnd=None):
 
 
 def esc_attr(s):
-    return s.replace("&", "&amp;").replace("<", "&lt;").replace('"', "&quot;").replace("\t", "&#9;").replace("\n", "&#10;")
+    return s.replace("&", "&amp;").replace("<", "&lt;").replace('"', "&quot;").replace("\t", "&#9;").replace("\n", "&#10;").replace("\r", "&#13;")
 
 
 def rtext(rnd):
@@ -76,7 +76,8 @@ def rdoc(rnd, depth, scope, top=False):
         used.add(an)
         if ":" in an:
             used.add(an.split(":", 1)[1])
-        val = rnd.choice(["v", "a b", "x&y", "<tag>", "q\"uote", "é", "", " padded ", "http://u/x?a=1&b=2"])
+        val = rnd.choice(["v", "a b", "x&y", "<tag>", "q\"uote", "é", "", " padded ", "http://u/x?a=1&b=2",
+                          "x\ny", "tab\there", "cr\rlf\r\n", "\n", " \t "])       # line breaks and tabs (written as character references: they are part of the value)
         attrs.append(f'{an}="{esc_attr(val)}"')
     if rnd.random() < 0.5:
         rnd.shuffle(attrs)
